@@ -199,9 +199,16 @@ def gen_case(st, tier, flavour):
             links.append({"path": d + "/" + nm + "b", "target": nm + "c"})
             links.append({"path": d + "/" + nm + "c", "target": up + "../" + rp.choice([sib, "outside"]) + "/secret"})
             return "/" + d + "/" + nm + "a", "link-chain"
-        if r < 0.93:
+        if r < 0.91:
             n = rp.randint(1, 6)
             return "/" + "../" * n + rp.choice([sib, "outside"]) + "/secret", "dotdot-out"
+        if r < 0.95:
+            # a directory link to a place whose PARENT holds the secret, followed by '..': lexical normalisation says
+            # "inside", the kernel resolves outside
+            tgt = rp.choice([sib, "outside"])
+            outside[tgt + "/sub/placeholder"] = ["placeholder"]
+            links.append({"path": d + "/" + nm, "target": rp.choice([up + "../" + tgt + "/sub", "{BASE}/" + tgt + "/sub"])})
+            return "/" + d + "/" + nm + "/../secret", "dirlink-then-dotdot"
         links.append({"path": d + "/" + nm, "target": up + "../" + rp.choice([sib, "outside"])})
         return "/" + d + "/" + nm + "/secret", "dirlink"
 
@@ -241,8 +248,9 @@ def gen_case(st, tier, flavour):
             if flavour == "C06" and rp.random() < 0.2:
                 links.append({"path": "etc/linked.d", "target": "../../" + sib + "/conf"})
                 sp["patterns"].append("/etc/linked.d/*.conf")
-            if rp.random() < 0.25:
-                sp["save_as"] = "globbed_%s/" % sp["name"]
+            if rp.random() < 0.3:
+                sp["save_as"] = rp.choice(["globbed_%s/" % sp["name"], "globbed_%s" % sp["name"], "{BASE}/absout/globbed_%s/" % sp["name"],
+                                           "/{BASE}/absout/globbed2_%s//" % sp["name"]])
             if rp.random() < 0.2:
                 sp["ignore"] = "b\\.conf$"
         elif k == "first_file":
@@ -259,6 +267,8 @@ def gen_case(st, tier, flavour):
                     add_file("var/log/%s.log" % n)
             sp["elems"] = names
             sp["path"] = "/var/log/%s.log"
+            if rp.random() < 0.25:
+                sp["save_as"] = rp.choice(["each_%s/" % sp["name"], "{BASE}/absout/each_%s/" % sp["name"], "{BASE}/absout/each2_%s" % sp["name"]])
             if flavour == "C06" and rp.random() < 0.3:
                 links.append({"path": "var/log/evil.log", "target": "../../../" + sib + "/secret"})
                 sp["elems"] = names + ["evil"]
@@ -515,7 +525,7 @@ def build_specs(case, env):
             impl_body[name] = F["first_file"]([env.spec_path(p) for p in sp["paths"]], context=Ctx, _h=hh)
         elif k == "foreach_collect":
             helper = helper_ds("_elems", lambda b, e=list(sp["elems"]): list(e))
-            impl_body[name] = F["foreach_collect"](helper, env.spec_path(sp["path"]), context=Ctx, _h=hh)
+            impl_body[name] = F["foreach_collect"](helper, env.spec_path(sp["path"]), save_as=sp.get("save_as"), context=Ctx, _h=hh)
         elif k == "simple_command":
             impl_body[name] = F["simple_command"](sp["cmd"], save_as=sp["save_as"], context=Ctx, _h=hh)
         elif k == "command_with_args":
